@@ -131,6 +131,9 @@ func init() {
 				{Threads: [][]cliEv{nil, {ev("do", 0)}, {ev("do", 1)}, {ev("resp", 1), ev("resp", 0)}}, Epilogue: "drain+close", Opts: cliOpts{PoolFanout: true, Fallback: true}},
 				{Threads: [][]cliEv{nil, {ev("start", 0), ev("start", 1)}, {ev("start", 2)}, {ev("resp", 2), ev("resp", 0), ev("resp", 1), ev("resp", 0)}}, Epilogue: "drain+close", Opts: cliOpts{Fallback: true}},
 				{Setup: []cliEv{ev("start", 0), {K: "failwrite"}}, Threads: [][]cliEv{nil, {tickAfter}, {ev("resp", 0)}, {ev("start", 1), ev("resp", 1)}}, Probe: true, Epilogue: "drain+close", Opts: cliOpts{PoolFanout: true, Fallback: true}},
+				// the answer arrives as fast as causality allows: right after the request was written, while Start is still running
+				{Threads: [][]cliEv{nil, {ev("start", 0)}, {ev("resp", 0)}}, Epilogue: "drain+close", Opts: cliOpts{Fallback: true, NoRetransmit: true}},
+				{Threads: [][]cliEv{nil, {ev("do", 0)}, {ev("resp", 0)}, {ev("start", 1)}}, Epilogue: "drain+close", Opts: cliOpts{Fallback: true}},
 			} {
 				cliExplore(c, "C12", sc, pb, true, fmt.Sprintf("S%d", i+1))
 			}
